@@ -75,6 +75,15 @@ NAME_SCHEMES = [dict(A="A", B="B", C="C"), dict(A="EQ:GO", B="EQ:GOOG", C="EQ:GO
                 dict(A="EQ:AB", B="EQ:A", C="EQ:ABC")]
 
 
+class _Scaled(object):
+    """the same handler with every price shifted (what the shadow signals are fed)"""
+    def __init__(self, dh, k):
+        self.dh, self.k = dh, k
+
+    def get_asset_latest_mid_price(self, dt, asset):
+        return self.dh.get_asset_latest_mid_price(dt, asset) + self.k        # a shift: changes every ratio, return and mean
+
+
 def replay(states, entry, lookbacks, rng):
     """Step one TLC behaviour through real signal objects.  Returns (n_updates, mismatches)."""
     nm = rng.choice(NAME_SCHEMES)
@@ -108,6 +117,10 @@ def replay(states, entry, lookbacks, rng):
             "vol": VolatilitySignal(start, sub("vol"), list(lbs))}
     dh = _Handler()
     coll = SignalsCollection(sigs, dh)
+    # a second, independent set of signal objects over the same assets and lookbacks that is fed OTHER prices and queried
+    # in between: signal objects must not influence one another
+    shadow = {"mom": MomentumSignal(start, uni, list(lbs)), "sma": SMASignal(start, uni, list(lbs)), "vol": VolatilitySignal(start, uni, list(lbs))}
+    shadow_coll = SignalsCollection(shadow, _Scaled(dh, 3.0))
     out = []
     n = 0
     for k, S in enumerate(states):
@@ -116,6 +129,14 @@ def replay(states, entry, lookbacks, rng):
             for a in entry:
                 dh.px[nm[a]] = float(stream[a][-1]) if a in stream else float("nan")
             coll.update(ts(bday(S["tick"]) * 1440 + 1260))
+            shadow_coll.update(ts(bday(S["tick"]) * 1440 + 1260))
+            for sh in shadow.values():
+                for a_ in list(sh.assets):
+                    for nlb_ in lbs:
+                        try:
+                            sh(a_, nlb_)
+                        except Exception:
+                            pass
             n += 1
         win, sig = asdict(S["win"]), asdict(S["sig"])
         tracked_all = set(S["tracked"])
